@@ -185,7 +185,7 @@ func runGoSemStream(c *Ctx, n int) {
 		}
 		// ---- strings
 		s := Pick(r, words) + Pick(r, words) + Pick(r, words)
-		old, nw := Pick(r, words[1:]), Pick(r, words)
+		old, nw := Pick(r, words), Pick(r, words)
 		cnt := r.Range(0, 5)
 		cmp(i, "str replace", map[string]any{"s": s, "old": old, "new": nw}, Hex(strings.ReplaceAll(s, old, nw)), "str", "replace", Hex(s), Hex(old), Hex(nw), "0")
 		cmp(i, "str repeat", map[string]any{"s": s, "n": cnt}, Hex(strings.Repeat(s, cnt)), "str", "repeat", Hex(s), "-", "-", itoa(cnt))
